@@ -282,3 +282,40 @@ def hybrid_columns_agree(marker, mask, force_pk_id, opt):
 ob("C05", "P3.hybrid_columns_agree", {"marker": R(-1, 3), "mask": R(1, 15), "force_pk_id": BOOL, "opt": BOOL}, enum=True, T=900, tpath=60,
    funcs=["cdd.sqlalchemy.emit.sqlalchemy_hybrid", "cdd.sqlalchemy.emit.sqlalchemy_table", "cdd.sqlalchemy.utils.emit_utils.ensure_has_primary_key"],
    bound="same column subsets / marker placements / force_pk_id as K2: the Column(...) calls inside the hybrid class's __table__ are textually the same as the Table variant's, exactly one primary key")(hybrid_columns_agree)
+
+
+# P4: ONE interface object emitted as Table, class and hybrid in any order: every emission parses to what a fresh copy gives (the variants are interchangeable) --------------
+ORDERS = (("table", "class", "hybrid"), ("table", "hybrid", "class"), ("class", "table", "hybrid"), ("class", "hybrid", "table"), ("hybrid", "table", "class"), ("hybrid", "class", "table"))
+
+
+def _emit_variant(v, ir, force_pk_id):
+    import cdd.sqlalchemy.emit as E
+
+    if v == "table":
+        return E.sqlalchemy_table(ir, name="config_tbl", word_wrap=False, force_pk_id=force_pk_id)
+    if v == "class":
+        return E.sqlalchemy(ir, emit_repr=False, class_name="Config", table_name="config_tbl", word_wrap=False, force_pk_id=force_pk_id)
+    return E.sqlalchemy_hybrid(ir, emit_repr=False, emit_create_from_attr=False, class_name="Config", table_name="config_tbl", word_wrap=False, force_pk_id=force_pk_id)
+
+
+def same_object_variants(order, force_pk_id, with_fk, opt):
+    def mk_ir():
+        cols = [("dataset_name", {"typ": "str", "doc": "[PK] the name"}), ("owner_id", {"typ": "int", "doc": ("[FK(owner_tbl.id)] " if with_fk else "") + "the owner"}),
+                ("note", {"typ": "Optional[str]" if opt else "str", "doc": "a note"}), ("kind", {"typ": "Literal['a', 'b']", "doc": "the kind", "default": "a"})]
+        return {"name": "config_tbl", "doc": "Header line.", "type": "static", "params": OrderedDict(cols), "returns": None}
+
+    shared = mk_ir()
+    for v in ORDERS[order]:
+        try:
+            got = ast.dump(_emit_variant(v, shared, force_pk_id))
+            want = ast.dump(_emit_variant(v, mk_ir(), force_pk_id))
+        except Exception as e:
+            return "%s emitter raised %s: %s" % (v, type(e).__name__, e)
+        if got != want:
+            return "the %s emission of an interface that was already emitted as %s differs from the emission of a fresh copy" % (v, "/".join(ORDERS[order][:ORDERS[order].index(v)]) or "nothing")
+    return ""
+
+
+ob("C05", "P4.same_object_variants", {"order": R(0, len(ORDERS) - 1), "force_pk_id": BOOL, "with_fk": BOOL, "opt": BOOL}, enum=True, T=600, funcs=FUNCS + ["cdd.sqlalchemy.emit.sqlalchemy_hybrid"],
+   bound="ONE interface object ([PK] str column, int column with or without [FK(..)], str or Optional[str] column, Literal column with default) emitted as Table, class and hybrid in ANY of the "
+         "6 orders, force_pk_id on/off (solver-enumerated): every emission equals the emission of a fresh copy, so the three variants stay interchangeable")(same_object_variants)
